@@ -61,13 +61,14 @@ theorem ite_push_size (b : Bool) (X : ByteArray) (y : UInt8) :
   · simp only [if_true, ByteArray.size_push]
 
 /-- what one successful `flushChunk` (with something pending) does to the sink and to the byte accounting -/
-theorem flushChunk_size (c : Cfg) (hc : CfgOk' c) (hdict : 65536 ≤ c.dictCap) (M : Matcher σ) (hM : MatcherOk' c M)
-    (w w'' : WSt σ) (hi : Inv c w) (hw : 0 < w.written) (hfc : flushChunk c M w = .ok w'') :
+theorem flushChunk_size (c : Cfg) (hc : CfgOk' c) (hdict : 65536 ≤ c.dictCap) (M : Matcher σ)
+    (I : σ → ByteArray → ByteArray → Prop) (hI : MatcherInv' c M I)
+    (w w'' : WSt σ) (hi : InvI c I w) (hw : 0 < w.written) (hfc : flushChunk c M w = .ok w'') :
     ∃ u, 0 < u ∧ w''.start = w.start + u ∧ w''.out.size ≤ w.out.size + 3 + u ∧ w''.written + u = w.written ∧
       (3000 ≤ u ∨ w''.written = 0) ∧
       (Gen.lzma_maxCompressed < w.digits + 4 + Gen.lzma_opLenMargin → 3000 ≤ u) := by
   have hw0 : ¬ w.written = 0 := by omega
-  have hcl := encClose_spec c hc M hM w hi hw
+  have hcl := encClose_spec c hc M I hI w hi hw
   cases h1 : encClose c M w with
   | error e =>
     unfold flushChunk at hfc
@@ -75,7 +76,8 @@ theorem flushChunk_size (c : Cfg) (hc : CfgOk' c) (hdict : 65536 ≤ c.dictCap) 
     exact absurd hfc (by simp)
   | ok w1 =>
     rw [h1] at hcl
-    obtain ⟨w', hi', hf, hpos, rfl, hb, hwhy⟩ := hcl
+    obtain ⟨w', hi'I, hf, hpos, rfl, hb, hwhy⟩ := hcl
+    have hi' := hi'I.toInv
     have hsz := closeSt_body_size w' hi'.erest.toInv hi'.eout
     have hwr := hf.written hi.start
     rw [ByteArray.size_empty] at hwr
@@ -164,9 +166,10 @@ theorem Acc.flush {w w'' : WSt σ} {u : Nat} (h : Acc w) (h1 : w''.start = w.sta
   obtain ⟨k, a, b⟩ := h
   exact ⟨k + 1, by omega, by omega⟩
 
-theorem write_acc (c : Cfg) (hc : CfgOk' c) (hdict : 65536 ≤ c.dictCap) (M : Matcher σ) (hM : MatcherOk' c M)
+theorem write_acc (c : Cfg) (hc : CfgOk' c) (hdict : 65536 ≤ c.dictCap) (M : Matcher σ)
+    (I : σ → ByteArray → ByteArray → Prop) (hI : MatcherInv' c M I)
     (p : ByteArray) :
-    ∀ (fuel : Nat) (w : WSt σ) (n : Nat), Inv c w → w.written < Gen.lzma_maxUncompressed → n ≤ p.size → Acc w →
+    ∀ (fuel : Nat) (w : WSt σ) (n : Nat), InvI c I w → w.written < Gen.lzma_maxUncompressed → n ≤ p.size → Acc w →
       (write c M p fuel w n).2.2 = none → Acc (write c M p fuel w n).1 := by
   intro fuel
   induction fuel with
@@ -183,7 +186,7 @@ theorem write_acc (c : Cfg) (hc : CfgOk' c) (hdict : 65536 ≤ c.dictCap) (M : M
       have hqs : q.size = min m (p.size - n) := by
         rw [← hq, ByteArray.size_extract]
         split <;> omega
-      have hew := encWrite_spec c hc M hM q (q.size + 2) w 0 hi (Nat.zero_le _) (by omega)
+      have hew := encWrite_spec c hc M I hI q (q.size + 2) w 0 hi (Nat.zero_le _) (by omega)
         (by split <;> omega)
       rcases hr : encWrite c M q (q.size + 2) w 0 with ⟨res, k⟩
       rw [hr] at hew
@@ -195,7 +198,7 @@ theorem write_acc (c : Cfg) (hc : CfgOk' c) (hdict : 65536 ≤ c.dictCap) (M : M
         simp only []
         have hw' := a2.written hi.start
         rw [ByteArray.size_extract] at hw'
-        have hfl := flushChunk_spec c hc M hM w' a1
+        have hfl := flushChunk_spec c hc M I hI w' a1
         cases hfc : flushChunk c M w' with
         | error e => intro h; exact absurd h (by simp)
         | ok w'' =>
@@ -204,7 +207,7 @@ theorem write_acc (c : Cfg) (hc : CfgOk' c) (hdict : 65536 ≤ c.dictCap) (M : M
           simp only []
           have hpos : 0 < w'.written := by unfold WSt.written; omega
           have := b4 hpos
-          obtain ⟨u, u1, u2, u3, u4, u5, u6⟩ := flushChunk_size c hc hdict M hM w' w'' a1 hpos hfc
+          obtain ⟨u, u1, u2, u3, u4, u5, u6⟩ := flushChunk_size c hc hdict M I hI w' w'' a1 hpos hfc
           exact ih w'' (n + k) b1 (by omega) (by omega) ((hacc.frame a2).flush u2 u3 (u6 a5))
       | ok w' =>
         obtain ⟨a1, a2, a3⟩ := hew
@@ -213,7 +216,7 @@ theorem write_acc (c : Cfg) (hc : CfgOk' c) (hdict : 65536 ≤ c.dictCap) (M : M
         rw [ByteArray.size_extract] at hw'
         by_cases hkm : k = m
         · rw [if_pos hkm]
-          have hfl := flushChunk_spec c hc M hM w' a1
+          have hfl := flushChunk_spec c hc M I hI w' a1
           cases hfc : flushChunk c M w' with
           | error e => intro h; exact absurd h (by simp)
           | ok w'' =>
@@ -222,7 +225,7 @@ theorem write_acc (c : Cfg) (hc : CfgOk' c) (hdict : 65536 ≤ c.dictCap) (M : M
             simp only []
             have hpos : 0 < w'.written := by omega
             have := b4 hpos
-            obtain ⟨u, u1, u2, u3, u4, u5, u6⟩ := flushChunk_size c hc hdict M hM w' w'' a1 hpos hfc
+            obtain ⟨u, u1, u2, u3, u4, u5, u6⟩ := flushChunk_size c hc hdict M I hI w' w'' a1 hpos hfc
             have hu : 3000 ≤ u := by
               have hmax : Gen.lzma_maxUncompressed = 2097152 := rfl
               rcases u5 with h | h
@@ -235,8 +238,9 @@ theorem write_acc (c : Cfg) (hc : CfgOk' c) (hdict : 65536 ≤ c.dictCap) (M : M
       intro _
       exact hacc
 
-theorem flushLoop_acc (c : Cfg) (hc : CfgOk' c) (hdict : 65536 ≤ c.dictCap) (M : Matcher σ) (hM : MatcherOk' c M) :
-    ∀ (fuel : Nat) (w w' : WSt σ), Inv c w → Acc w → flushLoop c M fuel w = .ok w' →
+theorem flushLoop_acc (c : Cfg) (hc : CfgOk' c) (hdict : 65536 ≤ c.dictCap) (M : Matcher σ)
+    (I : σ → ByteArray → ByteArray → Prop) (hI : MatcherInv' c M I) :
+    ∀ (fuel : Nat) (w w' : WSt σ), InvI c I w → Acc w → flushLoop c M fuel w = .ok w' →
       ∃ k, w'.out.size ≤ w'.start + 3 * k ∧ 3000 * (k - 1) ≤ w'.start := by
   intro fuel
   induction fuel with
@@ -246,14 +250,14 @@ theorem flushLoop_acc (c : Cfg) (hc : CfgOk' c) (hdict : 65536 ≤ c.dictCap) (M
     unfold flushLoop at h
     by_cases hw : w.written > 0
     · rw [if_pos hw] at h
-      have hfl := flushChunk_spec c hc M hM w hi
+      have hfl := flushChunk_spec c hc M I hI w hi
       cases hfc : flushChunk c M w with
       | error e => rw [hfc] at h; exact absurd h (by simp)
       | ok w1 =>
         rw [hfc] at hfl h
         obtain ⟨b1, b2, b3, b4⟩ := hfl
         simp only [] at h
-        obtain ⟨u, u1, u2, u3, u4, u5, u6⟩ := flushChunk_size c hc hdict M hM w w1 hi hw hfc
+        obtain ⟨u, u1, u2, u3, u4, u5, u6⟩ := flushChunk_size c hc hdict M I hI w w1 hi hw hfc
         rcases u5 with h5 | h5
         · exact ih w1 w' b1 (hacc.flush u2 u3 h5) h
         · have hw' : w' = w1 := by
@@ -284,8 +288,9 @@ theorem not_close_of_write (ps : List ByteArray) : ∀ call ∈ ps.map Call.writ
   obtain ⟨p, _, rfl⟩ := List.mem_map.mp h
   simp
 
-theorem run_writes_acc (c : Cfg) (hc : CfgOk c) (hdict : 65536 ≤ c.dictCap) (M : Matcher σ) (hM : MatcherOk c M) :
-    ∀ (ps : List ByteArray) (w : WSt σ) (d : ByteArray), RunInv c w d → Acc w →
+theorem run_writes_acc (c : Cfg) (hc : CfgOk c) (hdict : 65536 ≤ c.dictCap) (M : Matcher σ)
+    (I : σ → ByteArray → ByteArray → Prop) (hI : MatcherInv c M I) :
+    ∀ (ps : List ByteArray) (w : WSt σ) (d : ByteArray), RunInv c I w d → Acc w →
       allOk (run c M w (ps.map .write)).2 → Acc (run c M w (ps.map .write)).1 := by
   intro ps
   induction ps with
@@ -295,15 +300,57 @@ theorem run_writes_acc (c : Cfg) (hc : CfgOk c) (hdict : 65536 ≤ c.dictCap) (M
     rw [List.map_cons, run_cons] at hok ⊢
     rw [allOk_cons] at hok
     obtain ⟨herr, hrest⟩ := hok
-    have h1 := (step_write c (cfgOk' hc) M (matcherOk' hM) w d p h).2 herr
-    obtain ⟨e1, e2⟩ := step_write_eq c M w p h.inv.notClosed
+    have h1 := (step_write c (cfgOk' hc) M I (matcherInv' hI) w d p h).2 herr
+    obtain ⟨e1, e2⟩ := step_write_eq c M w p h.inv.toInv.notClosed
     have hacc1 : Acc (step c M w (.write p)).1 := by
       rw [e1]
-      exact write_acc c (cfgOk' hc) hdict M (matcherOk' hM) p _ w 0 h.inv h.wr (Nat.zero_le _) hacc
+      exact write_acc c (cfgOk' hc) hdict M I (matcherInv' hI) p _ w 0 h.inv h.wr (Nat.zero_le _) hacc
         (by rw [← e2]; exact herr)
     exact ih _ _ h1 hacc1 hrest
 
 theorem init_acc (c : Cfg) (m0 : σ) : Acc (init c m0) := ⟨0, Nat.le_refl _, Nat.le_refl _⟩
+
+/-- **No noticeable expansion (C17, third clause) for the LZMA2 writer.** Without intermediate Flush, with a
+    dictionary of at least 64 KiB, the emitted stream is at most n + n/500 + 128 bytes for n bytes written:
+    every chunk is stored in a form not larger than its raw form (`3 + u`), and every chunk but the last was
+    ended by the compressed-size limit or the 2 MiB limit and therefore carries at least 3000 bytes
+    (one operation costs at most 20 range-coder bytes). -/
+theorem no_flush_size_bound_I (c : Cfg) (hc : CfgOk c) (hdict : 65536 ≤ c.dictCap) (M : Matcher σ)
+    (I : σ → ByteArray → ByteArray → Prop) (hI : MatcherInv c M I) (m0 : σ)
+    (h0 : I m0 ByteArray.empty ByteArray.empty) (ps : List ByteArray)
+    (hok : allOk (run c M (init c m0) (ps.map .write ++ [.close])).2) :
+    let w := (run c M (init c m0) (ps.map .write ++ [.close])).1
+    let n := (payload (ps.map .write)).size
+    w.out.size ≤ n + n / 500 + 128 := by
+  intro w n
+  obtain ⟨hw, hall⟩ := run_snoc c M (ps.map .write) .close (init c m0)
+  obtain ⟨hok1, herr⟩ := hall.mp hok
+  have h := init_run c hc M I hI m0 h0 (ps.map .write) (not_close_of_write ps) hok1
+  have hacc := run_writes_acc c hc hdict M I hI ps _ _ (init_inv c I m0 h0) (init_acc c m0) hok1
+  have hwe : w = (step c M (run c M (init c m0) (ps.map .write)).1 .close).1 := hw
+  generalize (run c M (init c m0) (ps.map .write)).1 = wf at *
+  have hfl := flushLoop_spec c (cfgOk' hc) M I (matcherInv' hI) (wf.written + 1) wf h.inv (by omega)
+  have hcl := h.inv.toInv.notClosed
+  unfold step at herr hwe
+  simp only [hcl, Bool.false_eq_true, if_false] at herr hwe
+  cases hr : flushLoop c M (wf.written + 1) wf with
+  | error e =>
+    rw [hr] at herr
+    exact absurd herr (by simp)
+  | ok w' =>
+    rw [hr] at hfl hwe
+    obtain ⟨a1, a2, a3⟩ := hfl
+    obtain ⟨k, b1, b2⟩ := flushLoop_acc c (cfgOk' hc) hdict M I (matcherInv' hI) _ wf w' h.inv hacc hr
+    have hn : n = w'.hist.size + w'.look.size := by
+      show (payload (ps.map .write)).size = _
+      rw [← h.data, ← a3, ByteArray.size_append]
+    have hs := a1.start
+    have hout : w.out.size = w'.out.size + 1 := by
+      rw [hwe]
+      show (w'.out.push 0).size = _
+      rw [ByteArray.size_push]
+    unfold WSt.written WSt.compressed at a2
+    omega
 
 /-- **No noticeable expansion (C17, third clause) for the LZMA2 writer.** Without intermediate Flush, with a
     dictionary of at least 64 KiB, the emitted stream is at most n + n/500 + 128 bytes for n bytes written:
@@ -316,36 +363,9 @@ theorem no_flush_size_bound (c : Cfg) (hc : CfgOk c) (hdict : 65536 ≤ c.dictCa
     let w := (run c M (init c m0) (ps.map .write ++ [.close])).1
     let n := (payload (ps.map .write)).size
     w.out.size ≤ n + n / 500 + 128 := by
-  intro w n
-  obtain ⟨hw, hall⟩ := run_snoc c M (ps.map .write) .close (init c m0)
-  obtain ⟨hok1, herr⟩ := hall.mp hok
-  have h := init_run c hc M hM m0 (ps.map .write) (not_close_of_write ps) hok1
-  have hacc := run_writes_acc c hc hdict M hM ps _ _ (init_inv c m0) (init_acc c m0) hok1
-  have hwe : w = (step c M (run c M (init c m0) (ps.map .write)).1 .close).1 := hw
-  generalize (run c M (init c m0) (ps.map .write)).1 = wf at *
-  have hfl := flushLoop_spec c (cfgOk' hc) M (matcherOk' hM) (wf.written + 1) wf h.inv (by omega)
-  have hcl := h.inv.notClosed
-  unfold step at herr hwe
-  simp only [hcl, Bool.false_eq_true, if_false] at herr hwe
-  cases hr : flushLoop c M (wf.written + 1) wf with
-  | error e =>
-    rw [hr] at herr
-    exact absurd herr (by simp)
-  | ok w' =>
-    rw [hr] at hfl hwe
-    obtain ⟨a1, a2, a3⟩ := hfl
-    obtain ⟨k, b1, b2⟩ := flushLoop_acc c (cfgOk' hc) hdict M (matcherOk' hM) _ wf w' h.inv hacc hr
-    have hn : n = w'.hist.size + w'.look.size := by
-      show (payload (ps.map .write)).size = _
-      rw [← h.data, ← a3, ByteArray.size_append]
-    have hs := a1.start
-    have hout : w.out.size = w'.out.size + 1 := by
-      rw [hwe]
-      show (w'.out.push 0).size = _
-      rw [ByteArray.size_push]
-    unfold WSt.written WSt.compressed at a2
-    omega
+  exact no_flush_size_bound_I c hc hdict M (fun _ _ _ => True) (matcherInv_of_ok hM) m0 trivial ps hok
 
+#print axioms W2.no_flush_size_bound_I
 #print axioms W2.no_flush_size_bound
 
 end W2
